@@ -49,8 +49,9 @@ func NewSender(writeI shipapi.ShipConnectionDataWriterInterface) api.SenderInter
 
 // return the datagram for a given msgCounter (only availbe for Notify messasges!), error if not found
 func (c *Sender) DatagramForMsgCounter(msgCounter model.MsgCounterType) (model.DatagramType, error) {
-	c.muxNotifyCache.RLock()
-	defer c.muxNotifyCache.RUnlock()
+	// a lookup reorders the entries of the cache, so it needs the lock exclusively
+	c.muxNotifyCache.Lock()
+	defer c.muxNotifyCache.Unlock()
 
 	if datagram, ok := c.datagramNotifyCache.Get(msgCounter); ok {
 		return datagram, nil
